@@ -55,6 +55,8 @@ VARIABLES
     tx,       \* slice -> connection of the open transaction (0 = none)       [SessionExecutor.txConns]
     ks,       \* slice -> pinned keep-session connection (0 = none)           [SessionExecutor.ksConns]
     alive,    \* session not closed
+    sps,      \* 1 when the session has a recorded savepoint (SessionExecutor.savepoints non-empty), else 0: a connection
+              \*   that joins the transaction later is sent "savepoint <name>" right after its BEGIN (getTransactionConn)
     stale,    \* the namespace configuration changed since the session last looked
     phase,    \* "idle" between commands, "busy" inside one (event level only)
     \* ---- observation of the last command
@@ -67,7 +69,7 @@ VARIABLES
     \* ---- bounds
     nc, nf, nn
 
-vars == <<KS, User, cs, ac, intx, tx, ks, alive, stale, phase, last, used, ended, reply, nc, nf, nn>>
+vars == <<KS, User, cs, ac, intx, tx, ks, alive, sps, stale, phase, last, used, ended, reply, nc, nf, nn>>
 
 InTx == intx \/ ~ac                       \* SessionExecutor.isInTransaction
 Rng(f) == {f[s] : s \in Slices} \ {NoConn}
@@ -88,7 +90,7 @@ TypeOK ==
     /\ ac \in BOOLEAN /\ intx \in BOOLEAN /\ alive \in BOOLEAN /\ stale \in BOOLEAN
     /\ DOMAIN tx = Slices /\ DOMAIN ks = Slices
     /\ \A s \in Slices : tx[s] \in Conns \cup {NoConn} /\ ks[s] \in Conns \cup {NoConn}
-    /\ phase \in {"idle", "busy"}
+    /\ phase \in {"idle", "busy"} /\ sps \in {0, 1}
     /\ reply \in {"ok", "err", "none"}
 
 Init ==
@@ -96,7 +98,7 @@ Init ==
     /\ cs = [c \in Conns |-> FreshConn]
     /\ ac = TRUE /\ intx = FALSE
     /\ tx = NoMap /\ ks = NoMap
-    /\ alive = TRUE /\ stale = FALSE /\ phase = "idle"
+    /\ alive = TRUE /\ sps = 0 /\ stale = FALSE /\ phase = "idle"
     /\ last = NoLast /\ used = {} /\ ended = {} /\ reply = "none"
     /\ nc = 0 /\ nf = 0 /\ nn = 0
 
@@ -127,6 +129,13 @@ C18_EndReachesExactlyTx ==
     (Idle /\ last.k \in {"commit", "rollback"} /\ ~KS) =>
                /\ ended \subseteq Rng(last.pre)
                /\ \A c \in Rng(last.pre) : cs[c].st # "gone" => c \in ended
+
+(* SAVEPOINT / ROLLBACK TO / RELEASE go to exactly the connections of the transaction and take or release nothing *)
+C18_SavepointOnTxOnly ==
+    (Idle /\ last.k = "savepoint" /\ ~KS) =>
+               /\ {u[2] : u \in used} = Rng(last.pre)
+               /\ tx = last.pre
+               /\ Held = Rng(last.pre)
 
 (* ... after which those connections are released *)
 C18_ReleasedAfterEnd ==
@@ -193,7 +202,7 @@ Faults == {[op |-> "exec", sl |-> s, kind |-> k] : s \in Slices, k \in {"err", "
           \cup {[op |-> o, sl |-> s, kind |-> "broken"] : o \in FaultOps \ {"exec", "get"}, s \in Slices}
           \cup {[op |-> "get", sl |-> s, kind |-> "err"] : s \in Slices}
 
-World(f, m) == [cs |-> cs, ac |-> ac, intx |-> intx, tx |-> tx, ks |-> ks, alive |-> alive,
+World(f, m) == [cs |-> cs, ac |-> ac, intx |-> intx, tx |-> tx, ks |-> ks, alive |-> alive, sps |-> sps,
              fl |-> f, mid |-> m, fired |-> FALSE, used |-> {}, ended |-> {}, err |-> FALSE, over |-> FALSE]
 
 WInTx(w) == w.intx \/ ~w.ac
@@ -267,7 +276,9 @@ GetTxConn(w, sl) ==                                   \* getTransactionConn
               IF ~s1.ok THEN FailGot(s1.w, g.c)
               ELSE LET s2 == IF s1.w.ac THEN Op(s1.w, "begin", g.c) ELSE Op(s1.w, "setac0", g.c) IN
                    IF ~s2.ok THEN FailGot(s2.w, g.c)
-                   ELSE [w |-> [s2.w EXCEPT !.tx[sl] = g.c], c |-> g.c]
+                   ELSE \* the recorded savepoints are replayed on the new connection; the outcome is ignored
+                        LET s3 == IF s2.w.sps = 1 THEN Op(s2.w, "exec", g.c).w ELSE s2.w IN
+                        [w |-> [s3 EXCEPT !.tx[sl] = g.c], c |-> g.c]
 
 GetKsConn(w, sl) ==                                   \* getBackendKsConn
     IF w.ks[sl] # NoConn THEN [w |-> w, c |-> w.ks[sl]]
@@ -354,7 +365,7 @@ CmdBegin(w) ==                                        \* handleBegin
         t(v, s) == one(v, v.tx[s])
         k(v, s) == one(v, v.ks[s])
         r == Over2(k, Over2(t, w, Slices), Slices)
-    IN IF r.err THEN r ELSE [r EXCEPT !.intx = TRUE]
+    IN IF r.err THEN r ELSE [r EXCEPT !.intx = TRUE, !.sps = 0]
 
 EndTx(w, op) ==                                       \* commit / rollback / set autocommit=1
     \* rollback() skips closed connections [repaired: a closed transaction connection is still returned]
@@ -366,7 +377,19 @@ EndTx(w, op) ==                                       \* commit / rollback / set
         k(v, s) == IF v.ks[s] = NoConn \/ skip(v, v.ks[s]) THEN v
                    ELSE LET o == Op(v, op, v.ks[s]) IN IF o.ok THEN o.w ELSE SetErr(o.w)
         r == Over2(k, Over2(t, [w EXCEPT !.intx = FALSE], Slices), Slices)
-    IN [r EXCEPT !.tx = NoMap]
+    IN [r EXCEPT !.tx = NoMap, !.sps = IF op = "setac1" THEN @ ELSE 0]     \* handleSetAutoCommit keeps the savepoint list
+
+(* SAVEPOINT sp / ROLLBACK TO sp / RELEASE SAVEPOINT sp (handleSavepoint, rollbackSavepoint): the statement goes to  *)
+(* every connection of the open transaction (ROLLBACK TO also to the pinned ones); nothing is taken or returned.   *)
+(* The list of recorded savepoints follows the code as written: SAVEPOINT records the name, ROLLBACK TO forgets it, *)
+(* RELEASE keeps it (one name is modelled).  The reply is the outcome on the connection visited last; the action     *)
+(* below is only enabled when every connection involved is usable, so the outcome does not depend on the map order. *)
+CmdSavepoint(w, kind) ==
+    LET t(v, s) == IF v.tx[s] = NoConn THEN v ELSE Op(v, "exec", v.tx[s]).w
+        k(v, s) == IF v.ks[s] = NoConn \/ kind # "rollbackto" THEN v ELSE Op(v, "exec", v.ks[s]).w
+        r == Over2(k, Over2(t, w, Slices), Slices)
+    IN IF ~WInTx(r) THEN r
+       ELSE [r EXCEPT !.sps = CASE kind = "sp" -> 1 [] kind = "rollbackto" -> 0 [] OTHER -> @]
 
 CmdSetAc1(w) == EndTx([w EXCEPT !.ac = TRUE], "setac1")       \* handleSetAutoCommit(true)
 
@@ -400,7 +423,7 @@ Commit(w, k, S, kind, first, f, wasTx) ==
     /\ Assert(~w.over, "MaxPerPool is too small for this behaviour")
     /\ (w.mid => w.used # {})             \* the reload is triggered by the command's first statement on a backend
     /\ w.fl = NoFault                               \* an armed fault must have fired (no silent no-op faults)
-    /\ cs' = w.cs /\ ac' = w.ac /\ intx' = w.intx /\ tx' = w.tx /\ ks' = w.ks /\ alive' = w.alive
+    /\ cs' = w.cs /\ ac' = w.ac /\ intx' = w.intx /\ tx' = w.tx /\ ks' = w.ks /\ alive' = w.alive /\ sps' = w.sps
     /\ used' = w.used /\ ended' = w.ended
     /\ reply' = IF k = "disconnect" THEN "none" ELSE IF w.err THEN "err" ELSE "ok"
     /\ last' = [k |-> k, sl |-> S, kind |-> kind, first |-> first, fl |-> f, mid |-> w.mid,
@@ -426,6 +449,7 @@ Body(w, k, S, kind, first) ==
       [] k = "unshard"   -> ExecUnshard(w, kind)
       [] k = "shard"     -> ExecShard(w, S, kind, first)
       [] k = "ping"      -> CmdPing(w)
+      [] k = "savepoint" -> CmdSavepoint(w, kind)
       [] k = "quit"      -> [CloseSession(EndTx(w, "rollback")) EXCEPT !.err = FALSE]   \* COM_QUIT has no reply
       [] OTHER           -> w
 
@@ -453,7 +477,7 @@ NsChange ==                                           \* the namespace is reload
     /\ nn' = nn + 1 /\ nc' = nc + 1
     /\ last' = [NoLast EXCEPT !.k = "nschange", !.wasTx = InTx, !.pre = IF KS THEN ks ELSE tx]
     /\ used' = {} /\ ended' = {} /\ reply' = "none"
-    /\ UNCHANGED <<KS, User, cs, ac, intx, tx, ks, alive, phase, nf>>
+    /\ UNCHANGED <<KS, User, cs, ac, intx, tx, ks, alive, sps, phase, nf>>
 
 (* Faults that can fire at all in a command (a fault that does not fire is not a different   *)
 (* behaviour): the operation must be one the command path issues, on a slice it addresses.   *)
@@ -490,6 +514,12 @@ UnshardKinds == StmtKinds \cup {"stream"}
 Ping(f)             == Command("ping", {}, "none", 0, f, FALSE)
 Quit(f)             == Command("quit", {}, "none", 0, f, FALSE)
 
+(* savepoint statements: sessions without keep-session only (with it SAVEPOINT / RELEASE never reach the pinned   *)
+(* connections - outside this model, DESIGN 10.7), fault-free, every transaction connection usable                 *)
+SavepointKinds == {"sp", "rollbackto", "release"}
+Savepoint(kind)     == /\ ~KS /\ \A s \in Slices : tx[s] # NoConn => cs[tx[s]].bad = "ok"
+                       /\ Command("savepoint", {}, kind, 0, NoFault, FALSE)
+
 Ending == Disconnect \/ \E f \in FaultsFor({"rollback"}, Slices) : Quit(f)
 
 Next ==
@@ -502,6 +532,7 @@ Next ==
     \/ \E S \in SliceSets, kind \in ShardKinds, first \in Slices :
           \E f \in FaultsFor(StmtOps, S), mid \in BOOLEAN : Sharded(S, kind, first, f, mid)
     \/ \E f \in FaultsFor({"ping"}, Slices) : Ping(f)
+    \/ \E kind \in SavepointKinds : Savepoint(kind)
     \/ \E f \in FaultsFor({"rollback"}, Slices) : Quit(f)
     \/ Disconnect
     \/ NsChange
@@ -509,5 +540,5 @@ Next ==
 Spec == Init /\ [][Next]_vars
 
 (* the view hides the observation variables and the counters that do not bound anything *)
-View == <<KS, User, cs, ac, intx, tx, ks, alive, stale, nc, nf, nn>>
+View == <<KS, User, cs, ac, intx, tx, ks, alive, sps, stale, nc, nf, nn>>
 ===================================================================================
